@@ -5,6 +5,7 @@ package main
 
 import (
 	"bytes"
+	"encoding/json"
 	"fmt"
 	"math/rand/v2"
 	"os"
@@ -903,6 +904,16 @@ func wantW0(errFiles []string) int {
 	return 0
 }
 
+type jcfg struct {
+	Indent                     uint
+	Bn, Ci, Sr, Fn, Kp, S, Mn bool
+	Ln                         string
+}
+
+func (j jcfg) config() config {
+	return config{Indent: j.Indent, Bn: j.Bn, Ci: j.Ci, Sr: j.Sr, Fn: j.Fn, Kp: j.Kp, S: j.S, Mn: j.Mn, Ln: j.Ln}
+}
+
 func btoi(b bool) int {
 	if b {
 		return 1
@@ -992,6 +1003,45 @@ func main() {
 				}
 			}
 			hx.Emit(rw)
+		}
+		// the regression corpus (corpus/c36/regress.json): ordinary trees, same oracles, every seed and tier
+		if o.In != "" {
+			data, err := os.ReadFile(o.In)
+			if err != nil {
+				fmt.Fprintln(os.Stderr, err)
+				os.Exit(2)
+			}
+			var reg struct {
+				Trees []struct {
+					Name   string
+					Config jcfg
+					Over   map[string]jcfg
+					Files  []struct{ Rel, Src string }
+				}
+			}
+			if err := json.Unmarshal(data, &reg); err != nil {
+				fmt.Fprintln(os.Stderr, err)
+				os.Exit(2)
+			}
+			for i, t := range reg.Trees {
+				var fs []gfile
+				for _, f := range t.Files {
+					fs = append(fs, gfile{f.Rel, []byte(f.Src), specWalked(f.Rel, []byte(f.Src))})
+				}
+				sort.Slice(fs, func(a, b int) bool { return fs[a].Rel < fs[b].Rel })
+				if t.Over != nil {
+					over := map[string]config{}
+					for n, c := range t.Over {
+						over[n] = c.config()
+					}
+					hx.Emit(checkOne(scratch, 2000+i, fs, t.Config.config(), "sections", over))
+					continue
+				}
+				hx.Emit(checkOne(scratch, 2000+i, fs, t.Config.config(), "flags", nil))
+				if t.Config != (jcfg{}) {
+					hx.Emit(checkOne(scratch, 2000+i, fs, t.Config.config(), "editorconfig", nil))
+				}
+			}
 		}
 	}
 	hx.Flush()
